@@ -12,6 +12,14 @@
 //	                               → added:true|added:false|err:index|err:proof|panic:range|panic:nil  n=<count>
 //	vb <i> [mod…]                  Part.ValidateBasic of the same mutated part → ok|err:negindex|err:toobig|err:proof
 //	state | header | getpart <i> | read <chunk>     (chunk 0 = io.ReadAll, else a buffer of that size)
+//	race <goroutines> <rounds> <same|overlap|multi> <seed>
+//	                               SEARCH SUPPORT, oracle only (the sequential Lean model answers the constant
+//	                               `raced`): per round a fresh set from src's header and G goroutines released
+//	                               together, each calling AddPart with its own copies of the SAME part / a random
+//	                               subset / all parts in its own order.  Oracle per round: Count() == non-nil
+//	                               slots == popcount(BitArray); `added=true` at most once per index; IsComplete ⇒
+//	                               every slot non-nil and the bytes read back are the block; in `multi` (every part
+//	                               offered) the set is complete.  (VIOL:race-corrupt / VIOL:race-incomplete)
 //
 // mods, applied left to right: idx=<int> pidx=<int> ptot=<int> bytes=<hex> leaf=<hex>
 // flipb=<pos>:<mask> flipl=<pos>:<mask> flipa=<k>:<pos>:<mask> dropa adda=<hex> proof=<j> data=<j>
@@ -36,8 +44,10 @@ import (
 	"encoding/hex"
 	"fmt"
 	"io"
+	"runtime"
 	"strconv"
 	"strings"
+	"sync"
 
 	"github.com/gnolang/gno/tm2/pkg/bft/types"
 	"github.com/gnolang/gno/tm2/pkg/crypto/merkle"
@@ -444,6 +454,19 @@ func exec(t []string) (out, orc string) {
 		}
 		return out, "ok"
 
+	case t[0] == "race":
+		// constant impl output: the model is sequential; this op only feeds the oracle
+		if !S.haveSrc || len(t) != 5 {
+			return "raced", "-"
+		}
+		g, e1 := strconv.ParseUint(t[1], 10, 8)
+		rounds, e2 := strconv.ParseUint(t[2], 10, 24)
+		seed, e3 := strconv.ParseUint(t[4], 10, 64)
+		if e1 != nil || e2 != nil || e3 != nil || g < 2 || g > 32 || (t[3] != "same" && t[3] != "overlap" && t[3] != "multi") {
+			return "raced", "-"
+		}
+		return "raced", raceStress(int(g), int(rounds), t[3], seed)
+
 	case t[0] == "part" && len(t) == 2:
 		if !S.haveSrc {
 			return "err:nosrc", "-"
@@ -713,6 +736,108 @@ func matches(p *types.Part) bool {
 	return p.Proof.Index == p.Index && p.Proof.Total == S.total &&
 		bytes.Equal(p.Proof.LeafHash, oLeaf(p.Bytes)) &&
 		oPathOK(p.Index, S.total, p.Bytes, p.Proof.Aunts, S.hash)
+}
+
+// ---------------------------------------------------------------- concurrency stress (search support)
+
+// raceStress races AddPart calls on fresh sets created from the source header and checks, after
+// every round (all goroutines joined), only invariants every correct implementation satisfies.
+func raceStress(g, rounds int, mode string, seed uint64) string {
+	if prev := runtime.GOMAXPROCS(0); prev < 4 {
+		runtime.GOMAXPROCS(4)
+		defer runtime.GOMAXPROCS(prev)
+	}
+	total, hdr := S.src.Total(), S.src.Header()
+	r := kit.NewRand(seed)
+	for round := 0; round < rounds; round++ {
+		ps := types.NewPartSetFromHeader(hdr)
+		plans := make([][]*types.Part, g)
+		same := r.Intn(total)
+		for k := range plans {
+			var idx []int
+			switch mode {
+			case "same":
+				idx = []int{same}
+			case "overlap":
+				for i := 0; i < total; i++ {
+					if i == same || r.Chance(60) {
+						idx = append(idx, i)
+					}
+				}
+			default: // multi: every goroutine brings every part, in its own order
+				for i := 0; i < total; i++ {
+					idx = append(idx, i)
+				}
+			}
+			for i := len(idx) - 1; i > 0; i-- {
+				j := r.Intn(i + 1)
+				idx[i], idx[j] = idx[j], idx[i]
+			}
+			for _, i := range idx {
+				plans[k] = append(plans[k], deepCopy(S.src.GetPart(i)))
+			}
+		}
+		trues := make([][]int, g) // per goroutine, per index: number of added=true
+		panics := make([]string, g)
+		start := make(chan struct{})
+		var wg sync.WaitGroup
+		for k := 0; k < g; k++ {
+			trues[k] = make([]int, total)
+			wg.Add(1)
+			go func(k int) {
+				defer wg.Done()
+				<-start
+				for _, p := range plans[k] {
+					func() {
+						defer func() {
+							if v := recover(); v != nil {
+								panics[k] = fmt.Sprint(v)
+							}
+						}()
+						if ok, _ := ps.AddPart(p); ok {
+							trues[k][p.Index]++
+						}
+					}()
+				}
+			}(k)
+		}
+		close(start)
+		wg.Wait()
+		// ---- oracle (single-threaded from here)
+		where := fmt.Sprintf("round %d, %d goroutines, mode %s, total %d", round, g, mode, total)
+		filled, pop := 0, 0
+		ba := ps.BitArray()
+		for i := 0; i < total; i++ {
+			if ps.GetPart(i) != nil {
+				filled++
+			}
+			if ba.GetIndex(i) {
+				pop++
+			}
+			n := 0
+			for k := 0; k < g; k++ {
+				n += trues[k][i]
+			}
+			if n > 1 {
+				return fmt.Sprintf("VIOL:race-corrupt index %d was reported added=true %d times (%s)", i, n, where)
+			}
+		}
+		if ps.Count() != filled || filled != pop {
+			return fmt.Sprintf("VIOL:race-corrupt Count()=%d, non-nil slots=%d, bits set=%d (%s)", ps.Count(), filled, pop, where)
+		}
+		if ps.IsComplete() {
+			if filled != total {
+				return fmt.Sprintf("VIOL:race-corrupt IsComplete with %d of %d slots filled (%s)", filled, total, where)
+			}
+			var got []byte
+			if pc := call(func() { got, _ = io.ReadAll(ps.GetReader()) }); pc != "" || !bytes.Equal(got, S.data) {
+				return fmt.Sprintf("VIOL:race-corrupt complete set does not read back the block %s (%s)", pc, where)
+			}
+		} else if mode == "multi" {
+			return fmt.Sprintf("VIOL:race-incomplete every part was offered but the set is not complete: %d of %d (%s)", filled, total, where)
+		}
+	}
+	return "ok"
 }
 
 // ---------------------------------------------------------------- generator
@@ -1018,6 +1143,17 @@ func genSmallExhaustive(w *kit.Out, r *kit.Rand, total int) {
 	w.Op("read 0")
 }
 
+// concurrency stress (search support): same part / overlapping subsets / all parts, racing goroutines
+func genRace(w *kit.Out, r *kit.Rand, id string, n, ps, rounds int) {
+	w.Case(id)
+	w.Op("make %s %d", kit.Hex(r.Bytes(n)), ps)
+	for _, g := range []int{8, 2, 5} {
+		w.Op("race %d %d same %d", g, rounds, r.U64()>>1)
+		w.Op("race %d %d overlap %d", g, rounds/2+1, r.U64()>>1)
+		w.Op("race %d %d multi %d", g, rounds/4+1, r.U64()>>1)
+	}
+}
+
 func gen(w *kit.Out, r *kit.Rand, tier string) {
 	thorough := tier == "thorough"
 	maxRand := 4096
@@ -1082,6 +1218,16 @@ func gen(w *kit.Out, r *kit.Rand, tier string) {
 		genHonest(w, rr, "big/ps1-4096", 4096, 1)
 		genCorrupt(w, rr, "big/ps2", 4096, 2, 20)
 	}
+	// (ii') concurrency stress: the real part size (long verification window) and small parts
+	rc := r.Fork()
+	rounds := 60
+	if thorough {
+		rounds = 600
+	}
+	genRace(w, rc, "race/ps65536", 65536*2+1+rc.Intn(65536), 65536, rounds)
+	genRace(w, rc, "race/ps1024", 1024*3+rc.Intn(1024), 1024, rounds)
+	genRace(w, rc, "race/ps64", 64*4+1+rc.Intn(64), 64, rounds)
+	genRace(w, rc, "race/one-part", 1+rc.Intn(4096), 65536, rounds)
 	// (iii) malformed stream
 	rm := r.Fork()
 	nm := 80
